@@ -82,6 +82,10 @@ type StoreCase struct {
 	Listeners string `json:"listeners,omitempty"`
 	// VetoLast: of the two BeforeChange listeners the second one vetoes
 	VetoLast bool `json:"veto_last,omitempty"`
+	// GenIDs (mock backend): the store generates the id of a value created
+	// in a transaction on the empty id; the generator also comes up with ids
+	// that are taken
+	GenIDs bool `json:"gen_ids,omitempty"`
 }
 
 type typedRec struct {
@@ -115,6 +119,7 @@ func (StoreLinScenario) GenCase(r *rand.Rand, prop string) interface{} {
 			c.Optional = append(c.Optional, p)
 		}
 	}
+	c.GenIDs = c.Backend == "mock" && chance(r, 50)
 	ids := []string{"a", "b", "c"}
 	val := 0
 	ntasks := 2 + r.IntN(3)
@@ -122,7 +127,7 @@ func (StoreLinScenario) GenCase(r *rand.Rand, prop string) interface{} {
 		var txns []TxnSpec
 		for i, n := 0, 1+r.IntN(4); i < n; i++ {
 			tx := TxnSpec{Write: chance(r, 65), ID: pick(r, ids...)}
-			if chance(r, 6) {
+			if chance(r, 6) || c.GenIDs && chance(r, 20) {
 				tx.ID = ""
 			}
 			if chance(r, 60) {
@@ -244,6 +249,7 @@ type storeRun struct {
 	ops     []*sop
 	changes []changeRec
 	veto    map[string]bool
+	genID   map[string]string // id generated by the store for the running operation, by task
 	// injected commit errors, by task name
 	failCommit  map[string]bool
 	commitFired map[string]bool
@@ -267,7 +273,7 @@ func (sr *storeRun) mkVal(op StoreOp) interface{} {
 func (StoreLinScenario) Execute(sim *sched.Sim, ci interface{}, prop string, race bool) *Outcome {
 	c := ci.(*StoreCase)
 	h := NewHist(sim)
-	sr := &storeRun{sim: sim, c: c, h: h, veto: map[string]bool{}, failCommit: map[string]bool{}, commitFired: map[string]bool{}}
+	sr := &storeRun{sim: sim, c: c, h: h, veto: map[string]bool{}, genID: map[string]string{}, failCommit: map[string]bool{}, commitFired: map[string]bool{}}
 	sim.Optional = map[string]bool{}
 	for _, p := range c.Optional {
 		sim.Optional[p] = true
@@ -280,6 +286,18 @@ func (StoreLinScenario) Execute(sim *sched.Sim, ci interface{}, prop string, rac
 	switch c.Backend {
 	case "mock":
 		sr.mock = mockstore.NewStore()
+		if c.GenIDs {
+			ngen := 0
+			sr.mock.NewID = func() string {
+				id := []string{"a", "n1", "b", "n2", "c", "a"}[ngen%6]
+				ngen++
+				sim.Probe("store.generated-id")
+				if t := sim.Current(); t != nil {
+					sr.genID[t.Name] = id
+				}
+				return id
+			}
+		}
 		st = sr.mock
 	default:
 		dir = tempDBDir()
@@ -532,6 +550,11 @@ func (sr *storeRun) runTxn(st store.Store, ti, txn int, name string, tx TxnSpec)
 			err = wt.Delete()
 		}
 		o.Return = sim.Seq()
+		if g := sr.genID[name]; g != "" {
+			// the value was created under an id of the store's choosing
+			o.ID = g
+			sr.genID[name] = ""
+		}
 		sr.veto[name] = false
 		sr.failCommit[name] = false
 		if sr.commitFired[name] {
